@@ -109,7 +109,9 @@ type c14Case struct {
 	StartFails int `json:"start_fails,omitempty"`
 	// Infra (wired, one closer): the closer is at the same time the App's own Configure (1), Factory (2)
 	// or singleton registry (3), installed with the matching option and registered as a component
-	Infra  int   `json:"closer_is_app_infrastructure,omitempty"`
+	Infra int `json:"closer_is_app_infrastructure,omitempty"`
+	// Ring (wired, two closers): each closer holds the other one (a dependency cycle among closers)
+	Ring   bool  `json:"closers_hold_each_other,omitempty"`
 	Bound  int   `json:"preemption_bound"`
 	Script []int `json:"schedule,omitempty"`
 }
@@ -148,6 +150,14 @@ func c14Gen(c *core.Ctx) func(yield func(c14Case) bool) {
 			}
 			if n >= 1 && !yield(c14Case{N: n, Fail: 0, Steps: 0, Slow: -1, Wired: true, Both: true, Bound: bound}) {
 				return
+			}
+			// two closers on a dependency cycle
+			if n == 2 {
+				for fail := 0; fail < 4; fail++ {
+					if !yield(c14Case{N: 2, Fail: fail, Steps: 0, Slow: -1, Wired: true, Ring: true, Bound: bound}) {
+						return
+					}
+				}
 			}
 			// a closer that is also a piece of the App's own infrastructure
 			for infra := 1; infra <= 3 && n == 1; infra++ {
@@ -306,6 +316,9 @@ func c14Run(c *core.Ctx) {
 				}
 				anys = append(anys, sc)
 			}
+			if cs.Ring {
+				anys = []any{&c14RingA{c14Named: c14Named{c14Closer: closers[0], name: "closer0"}}, &c14RingB{c14Named: c14Named{c14Closer: closers[1], name: "closer1"}}}
+			}
 			var infraOpts []app.SettingOption
 			switch cs.Infra {
 			case 1:
@@ -358,7 +371,9 @@ func c14Run(c *core.Ctx) {
 		var calls []int
 		var finished []bool
 		var zlog []string
+		var closePanic string
 		body := func() {
+			closePanic = ""
 			syslog.ResetForVerif(syslog.LvTrace) // every execution starts with cold logger state
 			c14Reset(closers)
 			c14ZReset()
@@ -376,7 +391,7 @@ func c14Run(c *core.Ctx) {
 				a.Close()
 				both.Wait()
 			default:
-				a.Close()
+				closePanic = scen.Protect(func() { a.Close() })
 			}
 			calls, finished = c14Snapshot(closers)
 			zlog = c14ZSnapshot()
@@ -387,7 +402,7 @@ func c14Run(c *core.Ctx) {
 			cc := cs
 			cc.Script = e.Script
 			key := func(kind string) string {
-				return "C14/" + kind + "/" + core.Hash(cs.N, cs.Fail, cs.Steps, cs.Slow, cs.Wired, cs.AppDep, cs.Late, cs.Claim, cs.Second, cs.OrdMask, cs.StartFails, cs.Infra)
+				return "C14/" + kind + "/" + core.Hash(cs.N, cs.Fail, cs.Steps, cs.Slow, cs.Wired, cs.AppDep, cs.Late, cs.Claim, cs.Second, cs.OrdMask, cs.StartFails, cs.Infra, cs.Ring)
 			}
 			switch {
 			case e.Deadlock:
@@ -397,6 +412,10 @@ func c14Run(c *core.Ctx) {
 			case len(e.ChildPanics) > 0:
 				c.Outcome("panic")
 				c.Report(key("panic"), "panic", fmt.Sprintf("panic in a closing goroutine: %v", e.ChildPanics), cc)
+				return
+			case closePanic != "":
+				c.Outcome("panic")
+				c.Report(key("panic"), "panic", fmt.Sprintf("%d closers (wired by a real start: %v): App.Close panicked instead of closing them: %s", cs.N, cs.Wired, scen.FirstLine(fmt.Errorf("%s", closePanic))), cc)
 				return
 			}
 			wantCalls := 1
@@ -455,6 +474,16 @@ func c14Run(c *core.Ctx) {
 	})
 }
 
+// two closers that hold each other
+type c14RingA struct {
+	c14Named
+	Next definition.CloserComponent `wire:"closer1"`
+}
+type c14RingB struct {
+	c14Named
+	Next definition.CloserComponent `wire:"closer0"`
+}
+
 // closers that are the App's own infrastructure at the same time
 type c14Cfg struct {
 	configure.Configure
@@ -505,6 +534,10 @@ func c14Of(cc definition.CloserComponent) *c14Closer {
 	case *c14ViaRunCloser:
 		return x.c14Closer
 	case *c14Ordered:
+		return x.c14Closer
+	case *c14RingA:
+		return x.c14Closer
+	case *c14RingB:
 		return x.c14Closer
 	case *c14Cfg:
 		return x.c14Closer
